@@ -30,7 +30,8 @@ class ForAllEval(EvalContract):
     cls = 'ForAll'
     props = ('C10',)
     modes = ('sound',)
-    trusted = ("the running intersection over lists / sets of dicts (bounded stand-in oracle:forall)",)
+    trusted = ("the running intersection over lists / sets of dicts (bounded stand-in oracle:forall)",
+               "condition_unique_variable_ids lists the ids of condition_free_variables (one-line property)")
 
     def children(self, n):
         return [Z.f_left(n), Z.f_right(n)]
@@ -57,6 +58,9 @@ class ForAllEval(EvalContract):
                 return [(st, ZV(Z.f_right(recv.t), 'node'))]
             if name == 'condition_unique_variable_ids':
                 return [(st, Obj('keylist', {'ids': CondVarIds(recv.t)}))]
+            if name == 'condition_free_variables':
+                # the variables whose ids condition_unique_variable_ids lists (a one-line property over this list)
+                return [(st, Obj('varlist', {'ids': CondVarIds(recv.t)}))]
             if name == 'solution_set':
                 return [(st, st.ghost.get('solution_set', Obj('bindinglist', {'items': [], 'abstract': False})))]
         return super().getattr(eng, st, recv, name)
@@ -67,6 +71,14 @@ class ForAllEval(EvalContract):
             st.ghost['solution_set'] = v if isinstance(v, Obj) else Obj('bindinglist', {'items': [], 'abstract': not (isinstance(v, Lst) and not v.items)})
             return [st]
         return super().setattr(eng, st, recv, name, v)
+
+    def node__bind_unbound_variables_(self, eng, st, recv, args, kwargs, node):
+        """ForAll._bind_unbound_variables_(result, variables) at its call site: only its contract (ForAllBind) is known -
+        every row it yields extends `result` and binds every one of `variables`"""
+        if not (recv.t.eq(st.ghost['self']) and len(args) == 2 and not kwargs and isinstance(args[0], D)
+                and isinstance(args[1], Obj) and args[1].kind == 'varlist'):
+            raise OutOfSubset("_bind_unbound_variables_ called with something else than (a row, the condition's variables)", node)
+        return [(st, Obj('completion', {'of': args[0].ref, 'ids': args[1].data['ids'], 'line': node.lineno}))]
 
     # lists of binding dicts: only their emptiness and "an arbitrary element is one that was collected" are modelled
     def e_list_literal_hook(self):
@@ -81,12 +93,18 @@ class ForAllEval(EvalContract):
         lblc = z3.Select(st.fields['is_false'], Z.f_right(n))
         eng.oblige(st, "C10/collect/only-true-rows-of-the-condition-are-collected", z3.Not(lblc), line=node.lineno)
         der = st.ghost.get('derived', {}).get(d.ref)
-        prod = st.ghost.get('producer', {}).get(der[0]) if der else None
+        # the dict the binding was cut from: a row of the condition, or such a row completed by _bind_unbound_variables_
+        base = st.ghost.get('completion_of', {}).get(der[0], der[0]) if der else None
+        prod = st.ghost.get('producer', {}).get(base) if der else None
         ok = z3.BoolVal(False)
-        if der is not None and ((prod is not None and prod[0].eq(Z.f_right(n))) or der[0] in st.ghost.get('sigma_like', ())):
+        if der is not None and ((prod is not None and prod[0].eq(Z.f_right(n))) or base in st.ghost.get('sigma_like', ())):
             # a restriction of a row the condition just yielded (or of the ctx dict the condition yielded back)
             ok = z3.And(der[1] == CondVarIds(n), st.dicts[d.ref].same(st.dicts[der[0]].restrict(CondVarIds(n))))
         eng.oblige(st, "C10/collect/binding-is-the-row-restricted-to-the-conditions-own-variables", ok, line=node.lineno)
+        # the bindings collected for the different universal values are compared as whole dicts: each of them has to say
+        # something about EVERY variable of the condition (a row of an `or` binds only the variables of one operand; a
+        # variable it leaves unbound stands for every value of it)
+        eng.oblige(st, "C10/collect/binding-binds-every-variable-of-the-condition", st.dicts[d.ref].has == CondVarIds(n), line=node.lineno)
         recv.items.append(d)
         return [(st, NONE)]
 
@@ -120,6 +138,18 @@ class ForAllEval(EvalContract):
         return [(st, Obj('bindinglist', {'items': [], 'abstract': True}))]
 
     def abstract_loop(self, eng, st, s, it, ordinal):
+        if isinstance(it, Obj) and it.kind == 'completion':
+            # an arbitrary row of _bind_unbound_variables_(row, variables), by its contract (ForAllBind)
+            outs = [Outcome(st)]
+            b = st.clone()
+            comp = eng.new_dict(b, Z.ZMap.fresh('completed'))
+            b.assume(b.dicts[comp.ref].extends(b.dicts[it.data['of']]))
+            b.assume(subset(it.data['ids'], b.dicts[comp.ref].has))
+            b.ghost['completion_of'] = {**b.ghost.get('completion_of', {}), comp.ref: it.data['of']}
+            for b2 in eng.assign(s.target, comp, b):
+                for o in eng.exec_block(s.body, b2):
+                    outs.append(Outcome(o.st) if o.sig in (NEXT, CONTINUE, BREAK) else o)
+            return outs
         if isinstance(it, Obj) and it.kind == 'bindinglist':
             # the emit loop: an arbitrary collected binding (a dict over the condition's own variables)
             b = st.clone()
@@ -152,6 +182,120 @@ class ForAllEval(EvalContract):
     def on_exit(self, eng, o):
         if o.sig == RAISE:
             eng.oblige(o.st, "C10/no-exception", z3.BoolVal(False))
+
+
+class ForAllBind(LibModel):
+    """ForAll._bind_unbound_variables_(result, variables): every row it yields (i) extends `result` - nothing the condition
+    bound is changed - and (ii) binds every one of `variables`.  The recursive call is taken by this same contract; the
+    recursion is well-founded because it is made on a dict that binds strictly more of `variables`.  Assumed from the
+    interface contract I (proved per node class by the evaluation contracts): a row of `variable._evaluate__(s)` extends s
+    and binds the variable's own id."""
+    qual = 'symbolic:ForAll._bind_unbound_variables_'
+    cls = 'ForAll'
+    props = ('C10',)
+    modes = ('sound',)
+    trusted = ("interface contract I for the variables' own _evaluate__: a row extends the sources it was given and binds "
+               "the variable's id",)
+
+    def modenv(self):
+        return base_modenv()
+
+    def setup(self, eng):
+        st = State()
+        st.fields = init_fields()
+        self.n = z3.Const('self', Z.Node)
+        self.var_ids = z3.Const('VarIds', Z.ArrIB)
+        st.locals['self'] = ZV(self.n, 'node')
+        st.ghost['self'] = self.n
+        res = eng.new_dict(st, Z.ZMap.fresh('result'))
+        self.res0 = st.dicts[res.ref]
+        self.res_ref = res.ref
+        st.locals['result'] = res
+        st.locals['variables'] = Obj('varlist', {'ids': self.var_ids})
+        st.ghost['yields'] = 0
+        return [st]
+
+    def node__evaluate__(self, eng, st, recv, args, kwargs, node):
+        if len(args) != 1 or kwargs or not isinstance(args[0], D):
+            raise OutOfSubset("a variable evaluated with something else than one dict", node)
+        return [(st, Obj('varstream', {'node': recv.t, 'sigma': args[0].ref}))]
+
+    def node__bind_unbound_variables_(self, eng, st, recv, args, kwargs, node):
+        ok = (recv.t.eq(self.n) and len(args) == 2 and not kwargs and isinstance(args[0], D)
+              and isinstance(args[1], Obj) and args[1].kind == 'varlist' and args[1].data['ids'].eq(self.var_ids))
+        eng.oblige(st, "C10/bind/recursion-is-on-the-same-variables", z3.BoolVal(bool(ok)), line=node.lineno)
+        if not ok:
+            raise OutOfSubset("recursive call of another shape", node)
+        new, cur = st.dicts[args[0].ref], st.dicts[self.res_ref]
+        v = st.ghost.get('unbound_var')
+        # well-founded: the dict handed down binds everything `result` binds and one of `variables` that it does not
+        dec = z3.BoolVal(False) if v is None else z3.And(subset(cur.has, new.has), z3.Select(self.var_ids, Z.nid(v)),
+                                                         z3.Not(cur.contains(Z.nid(v))), new.contains(Z.nid(v)))
+        eng.oblige(st, "C10/bind/recursion-binds-one-more-of-the-variables", dec, line=node.lineno)
+        return [(st, Obj('completion', {'of': args[0].ref, 'ids': self.var_ids}))]
+
+    def abstract_loop(self, eng, st, s, it, ordinal):
+        if isinstance(it, Obj) and it.kind == 'varlist':
+            # invariant: every variable visited so far is bound by `result`, and `result` is what it was
+            outs = []
+            b = st.clone()
+            v = z3.FreshConst(Z.Node, 'variable')
+            b.assume(z3.Select(it.data['ids'], Z.nid(v)))
+            b.ghost['loop_var'] = v
+            for b2 in eng.assign(s.target, ZV(v, 'node'), b):
+                for o in eng.exec_block(s.body, b2):
+                    if o.sig in (NEXT, CONTINUE):
+                        eng.oblige(o.st, "C10/bind/inv/a-variable-passed-over-is-bound-by-the-result",
+                                   z3.And(o.st.dicts[self.res_ref].contains(Z.nid(v)), o.st.dicts[self.res_ref].same(self.res0)))
+                    elif o.sig == BREAK:
+                        outs.append(Outcome(o.st))
+                    else:
+                        outs.append(o)
+            done = st.clone()
+            done.assume(subset(it.data['ids'], done.dicts[self.res_ref].has))
+            done.path.append('every-variable-passed-over')
+            outs.append(Outcome(done))
+            return outs
+        if isinstance(it, Obj) and it.kind == 'varstream':
+            outs = [Outcome(st)]
+            b = st.clone()
+            row = eng.new_dict(b, Z.ZMap.fresh('value'))
+            b.assume(b.dicts[row.ref].extends(b.dicts[it.data['sigma']]))
+            b.assume(b.dicts[row.ref].contains(Z.nid(it.data['node'])))
+            b.ghost['unbound_var'] = it.data['node']
+            for b2 in eng.assign(s.target, row, b):
+                for o in eng.exec_block(s.body, b2):
+                    outs.append(Outcome(o.st) if o.sig in (NEXT, CONTINUE, BREAK) else o)
+            return outs
+        return super().abstract_loop(eng, st, s, it, ordinal)
+
+    def _post(self, eng, st, m, tag, line):
+        eng.oblige(st, f"C10/bind@{tag}/row-extends-the-given-result", m.extends(self.res0), line=line)
+        eng.oblige(st, f"C10/bind@{tag}/row-binds-every-given-variable", subset(self.var_ids, m.has), line=line)
+        eng.oblige(st, f"cover@{tag}", z3.BoolVal(True), kind='cover', line=line)
+
+    def yield_from(self, eng, st, src, ordinal, node):
+        if not (isinstance(src, Obj) and src.kind == 'completion'):
+            raise OutOfSubset("yield from something else than the recursive call", node)
+        b = st.clone()
+        row = Z.ZMap.fresh('deeper')
+        b.assume(row.extends(b.dicts[src.data['of']]))
+        b.assume(subset(self.var_ids, row.has))
+        self._post(eng, b, row, f"yield#{ordinal}", node.lineno)
+        return [Outcome(st), Outcome(b)]
+
+    def on_yield(self, eng, st, v, ordinal, node):
+        if not isinstance(v, D):
+            raise OutOfSubset("yield of a non-dict", node)
+        self._post(eng, st, st.dicts[v.ref], f"yield#{ordinal}", node.lineno)
+        return [st]
+
+    def on_exit(self, eng, o):
+        if o.sig == RAISE:
+            eng.oblige(o.st, "C10/bind/no-exception", z3.BoolVal(False))
+
+    def signature(self, ob, model):
+        return {}
 
 
 class ForAllReq(ReqModel):
@@ -196,7 +340,7 @@ class ForAllReq(ReqModel):
             eng.oblige(st, "C10/req/contains-every-variable-of-the-condition", subset(UV(Z.f_right(self.n)), res))
 
 
-CONTRACTS = [ForAllEval, ForAllReq]
+CONTRACTS = [ForAllEval, ForAllBind, ForAllReq]
 
 
 ValSeq = z3.SeqSort(Z.Val)
